@@ -2,6 +2,7 @@
 import base64, hashlib, json, re
 from vlib import *
 ERR = "(error)"
+NSHARD = 4
 
 VALID_MB = [b"\xc3\xa9", b"\xe2\x82\xac", b"\xf0\x9f\x98\x80", b"e\xcc\x81", b"\xe4\xb8\xad", b"\xc2\xa0", b"\xef\xbf\xbd", b"\xdf\xbf", b"\xf4\x8f\xbf\xbf"]
 CASELESS_MB = [b"\xe2\x82\xac", b"\xf0\x9f\x98\x80", b"\xe4\xb8\xad", b"\xcc\x81", b"\xc2\xa0"]
@@ -125,7 +126,7 @@ def run(ctx):
     ctx.assumptions = ["regex functions, hashes, base64, latin1, printf verbs: oracle comparison only (no Coq model): partial",
                        "full Unicode case mapping is outside the model"]
     forbidden_gate(ctx, ["Base", "C15"])
-    ok, why = check_props(ctx, "C15/Props.v", ["C15/Harness.vo", "C15/Proofs.vo", "C15/Utf8Proofs.vo", "C01/ProofsJson.vo"])
+    ok, why = check_props(ctx, "C15/Props.v", ["C15/Harness.vo", "C15/Harness2.vo", "C15/Proofs.vo", "C15/Utf8Proofs.vo", "C01/ProofsJson.vo"])
     rng = ctx.rng
     terms, meta, oracle_bad = [], [], []
 
@@ -378,6 +379,8 @@ def run(ctx):
     with ctx.timed("impl"):
         regex_sequence_cases(ctx, bad)
         json_cases(ctx, case, bad)
+        from checks import c15_codec
+        c15_codec.run_part(ctx, case, bad, mlr_rows, P)
     for i in (0, len(meta) // 3, len(meta) // 2, len(meta) - 1):
         ctx.sample(meta[i])
     if not ok:
@@ -387,7 +390,7 @@ def run(ctx):
             ctx.violation({"broken": why}, found_input=False)
         return
     with ctx.timed("coq_cases"):
-        badi, err = coq_eval_mismatches(ctx, "C15", "C15.Model C15.Harness", "Z * Z * Z * bytes * bytes * bytes * bytes", "chk", terms, shard=len(terms) // 2 + 1)
+        badi, err = coq_eval_mismatches(ctx, "C15", "C15.Model C15.Harness C15.Harness2", "Z * Z * Z * bytes * bytes * bytes * bytes", "chk2", terms, shard=len(terms) // NSHARD + 1)
     ctx.cov["correspondence"] = {"cases": len(terms), "mismatches": len(badi)}
     if err:
         ctx.violation({"broken": "correspondence-evaluation", "detail": err[-2000:]}, found_input=False)
